@@ -2322,7 +2322,9 @@ class Attribute(object):
             throw(TypeError, 'Cannot change value of primary key')
         with cache.flush_disabled():
             old_val =  obj._vals_.get(attr, NOT_LOADED)
-            if old_val is NOT_LOADED and reverse and not reverse.is_collection:
+            if old_val is NOT_LOADED and reverse:
+                # the previous value is needed to maintain the other side (for a collection on the other side too:
+                # otherwise the old parent's collection keeps the object and counts it twice)
                 old_val = attr.load(obj)
             status = obj._status_
             wbits = obj._wbits_
